@@ -29,6 +29,8 @@ static Verdict run_c01(const Case &c)
     v.classes.push_back(nch > 65536 ? "more_than_65536_chunks" : "more_than_256_chunks");
   if (e.s1.kind || e.s2.kind)
     v.classes.push_back("non_canonical_schedule");
+  if (e.fsz0)
+    v.classes.push_back("size_passed_as_0");
   {
     Case id;
     id.seti("plen", (long long)e.P.size());
